@@ -96,3 +96,11 @@ pub broadcast proof fn lemma_prod_upd10(base: Seq<u64>, a: u64, b: u64)
     lemma_prod_unfold2(s);
 }
 pub broadcast group group_prod { lemma_prod_unfold2, lemma_prod_update_below, lemma_prod_upd01, lemma_prod_upd10 }
+
+// [C15] the write `store_zarr_chunk` is allowed to make for chunk `c` addresses exactly the rows
+// `covers(c, ·)` of the history model, i.e. its effect under A-zarrs is `store_chunk_v`.
+pub proof fn lemma_write_for_covers(c: ChunkV, chain: int, r: int)
+    ensures covers(c, r) <==> write_for(c, chain).start <= r < write_for(c, chain).start + write_for(c, chain).len,
+            write_for(c, chain).data == c.flat,
+{
+}
